@@ -74,13 +74,18 @@ func RapidSeed(salt int) uint64 {
 	return uint64(SeedValue())*1000003 + uint64(Shard())*7919 + uint64(salt)*104729 + 1
 }
 
-// N picks a per-shard case count: quick in the quick tier, thorough/NShards in
-// the thorough tier.
+// ThoroughScale multiplies every thorough-tier random case count (the numbers
+// written at the call sites were sized for a one-minute run; the thorough tier
+// is meant to be several minutes per property on 16 cores).
+const ThoroughScale = 8
+
+// N picks a per-shard case count: quick in the quick tier, thorough*ThoroughScale/NShards
+// in the thorough tier.
 func N(quick, thorough int) int {
 	if !Thorough() {
 		return quick
 	}
-	n := thorough / NShards()
+	n := thorough * ThoroughScale / NShards()
 	if n < 1 {
 		n = 1
 	}
